@@ -338,11 +338,13 @@ struct basic_string_view {
             return pos <= size() ? pos : npos;
         }
 
-        if (v.size() > size() - pos) {
+        if (pos > size() or v.size() > size() - pos) {
             return npos;
         }
 
-        for (size_type outerIdx = pos; outerIdx < size(); ++outerIdx) {
+        // last position at which a match can start: the inner comparison stays inside the view
+        auto const lastIdx = size() - v.size();
+        for (size_type outerIdx = pos; outerIdx <= lastIdx; ++outerIdx) {
             if (unsafe_at(outerIdx) == v.front()) {
                 auto found = [&] {
                     for (size_type innerIdx = 0; innerIdx < v.size(); ++innerIdx) {
